@@ -6,9 +6,9 @@ HOOKS = {
     "add_only": True,
 }
 ENGINES = [
-    {"name": "coq-model", "path": "/verif/coq", "serves_properties": ["C01", "C07", "C08", "C12", "C13", "C14", "C20"],
+    {"name": "coq-model", "path": "/verif/coq", "serves_properties": ["C01", "C02", "C07", "C08", "C12", "C13", "C14", "C20"],
      "kind_free_text": "hand-written Gallina model (Model/), proofs (Proofs/), property theorems (Props/), Coq 8.16.1"},
-    {"name": "correspondence", "path": "/verif/harness", "serves_properties": ["C01", "C07", "C08", "C12", "C13", "C14", "C20"],
+    {"name": "correspondence", "path": "/verif/harness", "serves_properties": ["C01", "C02", "C07", "C08", "C12", "C13", "C14", "C20"],
      "kind_free_text": "Go harness driving /repo (built with -tags verif) + extracted OCaml model and oracle (ocaml/) on the same cases"},
 ]
 NOTES = ("Every check: rebuild Coq closure of Props/<id>.v, parse Print Assumptions, build harness against /repo's working tree, "
@@ -71,6 +71,19 @@ CHECKS = [
         "exactly in rationals and drops (and counts) rounding ties. BSON/JSON marshalling libraries are exercised, not modelled.",
         "Coq proof (order statistics over the cumulative scan, ring invariant) + differential correspondence",
         "DESIGN.md section 8 C13"),
+    chk("C02",
+        "Coq theorems (Props/C02.v): for ANY stream the model reader decodes, every chunk's keys are the dot-joined full leaf paths of its "
+        "reference document (field names and array indices, '.inc' for the second half of a timestamp), types follow the leaves, timestamp halves "
+        "are paired and every series has nPoints values (C02_keys_full_paths); keys are pairwise distinct when keys are dot-free and siblings "
+        "distinct (C02_keys_unique); for every compressing collector and same-schema input the chunk table read back equals the specification "
+        "table of the inputs — i-th value of each series = normalisation of that leaf in the i-th sample (C02_table); the flattened, structured, "
+        "matrix and series views of every chunk are exact projections of that one table with the same keys, order, sample count "
+        "(C02_views_project) and original BSON types (C02_types_preserved). Correspondence on shape classes with measured quotas (depth >= 4, "
+        "sibling sub-documents, arrays in documents in arrays) through all six reader entry points; oracle built from the input documents only.",
+        "Trusted: as C01. Known finding D1 (timestamp seconds x1000) excluded by hypothesis and proved as C02_timestamp_refuted. Arrays are assumed "
+        "to have fewer than 10^40 elements (decimal index rendering of the model).",
+        "Coq proof (induction over value trees; injectivity of dot-joined paths) + differential correspondence",
+        "DESIGN.md section 8 C02"),
     chk("C07",
         "Coq theorems (Props/C07.v) for the five compressing collector kinds, every chunk size and EVERY operation history (Add, unreadable Add, "
         "Resolve, Reset, Flush, SetMetadata, Info; any mix of schemas the collector can tell apart): C07_log — after every operation "
